@@ -747,7 +747,7 @@ theorem solveLoop_complete (P : String → Prop) (fuel : Nat) : ∀ (cs : List C
       rcases hrest with ⟨t, ht, _⟩ | ⟨cs', hcs', hrest⟩
       · rw [hcs''] at ht; simp at ht
       · rw [hcs''] at hcs'; injection hcs' with hcs'; subst hcs'
-        rcases hrest with ⟨hnone, _⟩ | ⟨σ', hσ', hr'⟩
+        rcases hrest with ⟨_, hnone, _⟩ | ⟨σ', hσ', hr'⟩
         · rw [hσ''] at hnone; simp at hnone
         · rw [hσ''] at hσ'; injection hσ' with hσ'; subst hσ'
           rw [hr']
